@@ -576,7 +576,7 @@ def R5_badge_and_mustpass(run):
             for at in A.atoms(v):
                 if mentions(at.term, lambda s: s[0] == "call" and s[1].endswith("is_supported_token_mint")):
                     # condition term is the bool payload; false => fail
-                    if (at.neg and at.true_fail and "UnsupportedTokenMint" in at.true_codes) or (not at.neg and at.false_fail and "UnsupportedTokenMint" in at.false_codes):
+                    if at.false_fail and "UnsupportedTokenMint" in at.false_codes:
                         ok2 = True
             if not ok2:
                 why = "is_supported_token_mint(..) == false does not lead to UnsupportedTokenMint"
